@@ -327,3 +327,47 @@ def nrun (liteS : Bool) : List (NOp σ) → NSt σ → List (Py NRes) × NSt σ
 
 end methods
 end NfcVerif.AuthNdef
+
+/-! ## the NDEF cache of `nfc.tag.Tag` on its own (every tag type; used for NTAG21x)
+
+`Tag.ndef`, `Tag.authenticate`, `Tag.protect`, `Tag.format` of nfc/tag/__init__.py with the tag type
+specific parts as inputs: what `_read_ndef_data` would return, what `_authenticate` / `_protect` /
+`_format` return or raise. -/
+namespace NfcVerif.TagCache
+open NfcVerif
+
+inductive COp where
+  /-- `tag.ndef`; `f`: what `_read_ndef_data()` returns should it be called now -/
+  | ndef (f : Option Bytes)
+  /-- `tag.authenticate(pw)`; `r`: outcome of `self._authenticate(pw)` -/
+  | auth (r : Py Bool)
+  /-- `tag.protect(...)`; `r`: outcome of `self._protect(...)` -/
+  | protect (r : Py Bool)
+  /-- `tag.format(...)`; `r`: outcome of `self._format(...)` -/
+  | format (r : Py Bool)
+
+structure CRes where
+  /-- the value handed to the application -/
+  value : Py (Option Bytes)
+  /-- `_read_ndef_data` was called (the tag was read) -/
+  fetched : Bool
+  deriving DecidableEq
+
+/-- `cache`: `Tag._ndef` (the `_data` of the cached NDEF object) -/
+def cstep (cache : Option Bytes) : COp → CRes × Option Bytes
+  | .ndef f =>
+    match cache with
+    | some d => (⟨.ok (some d), false⟩, cache)
+    | none => (⟨.ok f, true⟩, f)
+  | .auth r => (⟨r.map fun _ => none, false⟩, if r = .ok true then none else cache)
+  | .protect r => (⟨r.map fun _ => none, false⟩, if r = .ok true then none else cache)
+  | .format r => (⟨r.map fun _ => none, false⟩, if r = .ok true then none else cache)
+
+def crun : List COp → Option Bytes → List CRes × Option Bytes
+  | [], c => ([], c)
+  | op :: ops, c =>
+    let r := cstep c op
+    let rest := crun ops r.2
+    (r.1 :: rest.1, rest.2)
+
+end NfcVerif.TagCache
